@@ -215,6 +215,8 @@ def streams(rng, tier):
     out.append(("faults", faults))
     out.append(("tset", tset_cases(rng, tier)))
     out.append(("rename", rename_cases(rng, tier)))
+    out.append(("row-iter", trow_cases(rng, tier)))
+    out.append(("rename-any", rename2_cases(rng, tier)))
     if tier == "thorough":
         out.append(("random", random_cases(rng, 6000)))
     else:
@@ -353,6 +355,42 @@ def rename_cases(rng, tier):
         cs.append({"op": "rename", "names": names, "olds": ["a"], "news": ["z", "y"]})
         cs.append({"op": "rename", "names": names, "olds": ["a", "z", "q"], "news": ["z", "y", "w"]})
     return cs
+
+
+def trow_cases(rng, tier):
+    """t[i, cols] = <one-shot iterable>: the value is consumed BEFORE anything is written, as list assignment does - a
+    generator that reads the row being written sees the old cells; one that raises, or yields too few / too many items,
+    leaves the table as it was (decided by the oracle alone: the model's row assignment takes a sized value)"""
+    cs = []
+    for w in (1, 2, 3, 4):
+        for n in (1, 3):
+            for i in sorted({0, n - 1, -1}):
+                specs = [["all", True], ["all", False]] + ([["names", ["c1", "c0"]]] if w >= 2 else []) + ([["names", ["c0", "c2", "c1"]]] if w >= 3 else [])
+                for sp in specs:
+                    k = w if sp[0] == "all" else len(sp[1])
+                    base = {"op": "trow", "w": w, "n": n, "row": i, "colspec": sp}
+                    for kind in ("gen", "map", "iter", "short", "long", "rot", "rot2"):
+                        cs.append(dict(base, kind=kind))
+                    for at in range(0, k + 1):
+                        cs.append(dict(base, kind="raise", at=at))
+    return cs if tier == "thorough" else rng.sample(cs, min(len(cs), 260))
+
+
+def rename2_cases(rng, tier):
+    """rename_columns with new names of ANY type (ints, tuples, None, unhashable lists / dicts) at every position: the call
+    either renames every column it names or leaves every name as it was"""
+    cs = []
+    odd = [["i", 7], ["t", [["i", 1]]], ["N"], ["l", [["i", 1]]], ["D", []], ["f", (0.5).hex()], ["s", "z"]]
+    for names in (["a", "b", "c"], ["a", "b"], ["a", "a", "b"]):
+        for ln in (1, 2, 3):
+            for pos in range(ln):
+                for x in odd:
+                    olds = (["a", "b", "c"] * 2)[:ln]
+                    news = [["s", f"n{q}"] for q in range(ln)]
+                    news[pos] = x
+                    cs.append({"op": "rename2", "names": names, "olds": olds, "news": news})
+                    cs.append({"op": "rename2", "names": names, "olds": list(reversed(olds)), "news": news})
+    return cs if tier == "thorough" else rng.sample(cs, min(len(cs), 150))
 
 
 # ------------------------------------------------------------------ implementation side
@@ -552,6 +590,57 @@ def observe(case):
                 exc = _exc(e)
             after = [_state(c) for c in t._underlying]
             return {"before": before, "after": after, "exc": exc, "conv": conv, "len": len(t)}
+        if op == "trow":
+            w, n, i = case["w"], case["n"], case["row"]
+            t = Table([Vector([100 * q + r for r in range(n)], name=f"c{q}") for q in range(w)])
+            sp = case["colspec"]
+            key = ((i, slice(None)) if sp[1] else i) if sp[0] == "all" else (i, tuple(sp[1]))
+            targets = list(range(w)) if sp[0] == "all" else [int(nm[1:]) for nm in sp[1]]
+            k, kind = len(targets), case["kind"]
+            items = [7000 + q for q in range(k)]
+
+            def raising(at):
+                for q, x in enumerate(items):
+                    if q == at:
+                        raise RuntimeError("value iterable failed")
+                    yield x
+                if at >= len(items):
+                    raise RuntimeError("value iterable failed")
+            if kind == "gen":
+                value, want = (x for x in items), items
+            elif kind == "map":
+                value, want = map(lambda x: x, items), items
+            elif kind == "iter":
+                value, want = iter(items), items
+            elif kind == "short":
+                value, want = (x for x in items[:-1]), None
+            elif kind == "long":
+                value, want = (x for x in items + [1]), None
+            elif kind == "raise":
+                value, want = raising(case["at"]), None
+            else:
+                # the generator reads the row being written, one cell per item, as it is consumed
+                sh = 1 if kind == "rot" else k - 1
+                value = (t._underlying[targets[(q + sh) % k]]._underlying[i] for q in range(k))
+                want = [100 * targets[(q + sh) % k] + (i % n) for q in range(k)]
+            before = [[V.enc(x) for x in c._underlying] for c in t._underlying]
+            exc = None
+            try:
+                t[key] = value
+            except Exception as e:
+                exc = _exc(e)
+            after = [[V.enc(x) for x in c._underlying] for c in t._underlying]
+            return {"before": before, "after": after, "exc": exc, "targets": targets, "want": want,
+                    "dts": [V.schema_obs(c.schema()) for c in t._underlying]}
+        if op == "rename2":
+            t = Table([Vector([1, 2], name=nm) for nm in case["names"]])
+            news = [V.dec(x) for x in case["news"]]
+            exc = None
+            try:
+                t.rename_columns(list(case["olds"]), news)
+            except Exception as e:
+                exc = _exc(e)
+            return {"after": [V.enc(c._name) for c in t._underlying], "exc": exc}
         if op == "rename":
             t = Table([Vector([1, 2], name=nm) for nm in case["names"]])
             exc = None
@@ -679,6 +768,8 @@ def emit(case, obs):
         return "CSkip"
     if "setup" in obs:
         return "CBad"
+    if op in ("trow", "rename2"):
+        return "CSkip"                       # decided by the oracle alone
     ids = Ids()
     if op == "set":
         b, a = obs["before"], obs["after"]
@@ -913,6 +1004,42 @@ def oracle(case, obs):
                 if not unchanged and ok_why:
                     return f"tset-col-atomic: column {j} is neither untouched nor fully assigned ({ok_why})"
         return None
+    if op == "trow":
+        b, a, exc, want = obs["before"], obs["after"], obs["exc"], obs["want"]
+        i = case["row"] % case["n"]
+        if want is None:
+            if exc is None:
+                return f"trow-accepts: a row value of the wrong length, or one that raises while consumed ({case['kind']}), was accepted"
+            if a != b:
+                return (f"trow-atomic: the row assignment raised {exc['cls']} while its value was consumed / counted, but the "
+                        f"table changed: {b} -> {a}")
+            return None
+        if exc is not None:
+            return f"trow-rejects: a one-shot iterable of the right length was refused: {exc['msg']}"
+        exp = [list(c) for c in b]
+        for q, x in zip(obs["targets"], want):
+            exp[q][i] = ["i", x]
+        if a != exp:
+            return (f"trow-cells: t[{case['row']}, {case['colspec']}] = <{case['kind']}> over columns {b}: list assignment "
+                    f"consumes the value first and gives {exp}, the table holds {a}")
+        return None
+    if op == "rename2":
+        names, exc = [["s", x] for x in case["names"]], obs["exc"]
+        sim = list(names)
+        for o, nw in zip(case["olds"], case["news"]):
+            if ["s", o] in sim:
+                sim[sim.index(["s", o])] = nw
+            else:
+                sim = None
+                break
+        if exc is not None or sim is None:
+            if obs["after"] != names:
+                return (f"rename-atomic: rename_columns({case['olds']}, {case['news']}) "
+                        f"{'raised ' + exc['cls'] if exc else 'names a missing column'} but names changed {names} -> {obs['after']}")
+            return None
+        if obs["after"] != sim:
+            return f"rename-result: rename_columns({case['olds']}, {case['news']}) on {names} gave {obs['after']}, expected {sim}"
+        return None
     if op == "rename":
         names, exc = list(case["names"]), obs["exc"]
         if len(case["olds"]) != len(case["news"]):
@@ -959,6 +1086,10 @@ def nontrivial(case, obs):
         return case["colspec"][0] in ("all", "names")
     if op == "rename":
         return len(case["olds"]) >= 2 or len(set(n for n in case["names"])) < len(case["names"])
+    if op == "trow":
+        return case["kind"] not in ("gen", "map", "iter") and len(obs.get("targets", [])) >= 2
+    if op == "rename2":
+        return len(case["olds"]) >= 2
     return True
 
 
@@ -972,7 +1103,9 @@ def describe(case, obs, stream):
         return [f"{stream}:{case['key'][0]}<-{case['value'][0]}:{tag}"]
     if op == "tset":
         return [f"tset:{case['rowkey'][0]},{case['colspec'][0]}<-{case['value'][0]}:{tag}"]
-    return [f"rename:{tag}"]
+    if op == "trow":
+        return [f"trow:{case['kind']}:{tag}"]
+    return [f"{op}:{tag}"]
 
 
 def shrink(case):
